@@ -2,6 +2,8 @@
 EXTENDS RtmpTxnConc, Json
 Reqs3 == <<2, 3, 4>>
 Reqs2 == <<2, 3>>
+\* the same id used again by a request whose transport write fails: the first request stays outstanding
+ReqsSame == <<2, 3, 2>>
 \* Schedules for replay: steps the code cannot be paused between are kept adjacent
 \* (marshal/register/transport-write entry of one WritePacket; read/lookup of one DecodeMessage).
 GenNext == IF widx <= Len(Reqs) /\ wpc \in {"called", "registered"} /\ RegisterFirst
@@ -9,5 +11,5 @@ GenNext == IF widx <= Len(Reqs) /\ wpc \in {"called", "registered"} /\ RegisterF
            ELSE IF rcur # 0 THEN R_Lookup ELSE Next
 McView == <<widx, wpc, pending, written, nresp, inbox, rcur, results>>
 GenSpec == Init /\ [][GenNext]_vars
-Emit == Done => PrintT(<<"CASE", ToJson([sched |-> sched, results |-> results, reqs |-> Reqs, dups |-> Dups])>>)
+Emit == Done => PrintT(<<"CASE", ToJson([sched |-> sched, results |-> results, reqs |-> Reqs, dups |-> Dups, failed |-> FailedIds])>>)
 =============================================================================
